@@ -14,6 +14,8 @@ import nfc.llcp
 import nfc.llcp.llc as llcmod
 import nfc.llcp.tco as tco
 import nfc.llcp.pdu as pdu
+from harness import c05_coop
+from harness.c05_coop import two_senders      # noqa: F401 (partition fn)
 
 envl.install()
 
@@ -537,6 +539,7 @@ def partitions(tier):
             for b in OPS_MORE:
                 add("llc_pair", [a, b], 2, "core", agf=1)
                 add("llc_pair", [a, b], 2, "core", agf=0)
+    parts += c05_coop.partitions(tier)      # two blocking senders (env.coop)
     return parts
 
 
@@ -557,3 +560,9 @@ ASSUMPTIONS = ["env.llcp: Condition.wait() without time-out raises WouldBlock, w
                "initial sequence variables are set directly to a symbolic offset (state after that many acknowledged exchanges)"]
 
 LIMITS = {"quick": dict(max_time=150), "thorough": dict(max_time=1500)}
+
+
+# two blocking senders under the cooperative scheduler (harness/c05_coop.py)
+MUST_REACH = MUST_REACH + c05_coop.MUST_REACH
+OUTSIDE = list(OUTSIDE) + list(c05_coop.OUTSIDE)
+ASSUMPTIONS = list(ASSUMPTIONS) + list(c05_coop.ASSUMPTIONS)
